@@ -41,6 +41,9 @@ type Settings struct {
 	// the frame this Settings was decoded from. It lets the receiver apply the
 	// window delta to open streams only when the value actually changed.
 	hasWindowSize bool
+	// present has a bit for every parameter the frame this Settings was decoded
+	// from carried: bit n for the parameter with identifier n.
+	present uint8
 }
 
 func (st *Settings) Type() FrameType {
@@ -59,6 +62,7 @@ func (st *Settings) Reset() {
 	st.rawSettings = st.rawSettings[:0]
 	st.ack = false
 	st.hasWindowSize = false
+	st.present = 0
 }
 
 // CopyTo copies st fields to st2.
@@ -72,6 +76,41 @@ func (st *Settings) CopyTo(st2 *Settings) {
 	st2.frameSize = st.frameSize
 	st2.headerSize = st.headerSize
 	st2.hasWindowSize = st.hasWindowSize
+	st2.present = st.present
+}
+
+// mergeTo copies to st2 the parameters that the frame st was decoded from
+// carried. A SETTINGS frame changes what it mentions and nothing else: a
+// parameter it leaves out keeps the value the peer gave it before, it does not
+// go back to its default (RFC 7540 6.5.3).
+func (st *Settings) mergeTo(st2 *Settings) {
+	has := func(id uint16) bool {
+		return st.present&(1<<id) != 0
+	}
+
+	if has(HeaderTableSize) {
+		st2.tableSize = st.tableSize
+	}
+
+	if has(EnablePush) {
+		st2.enablePush = st.enablePush
+	}
+
+	if has(MaxConcurrentStreams) {
+		st2.maxStreams = st.maxStreams
+	}
+
+	if has(MaxWindowSize) {
+		st2.windowSize = st.windowSize
+	}
+
+	if has(MaxFrameSize) {
+		st2.frameSize = st.frameSize
+	}
+
+	if has(MaxHeaderListSize) {
+		st2.headerSize = st.headerSize
+	}
 }
 
 // SetHeaderTableSize sets the maximum size of the header
@@ -180,6 +219,10 @@ func (st *Settings) Read(d []byte) error {
 		b = d[last:i]
 		key = uint16(b[0])<<8 | uint16(b[1])
 		value = uint32(b[2])<<24 | uint32(b[3])<<16 | uint32(b[4])<<8 | uint32(b[5])
+
+		if key >= HeaderTableSize && key <= MaxHeaderListSize {
+			st.present |= 1 << key
+		}
 
 		switch key {
 		case HeaderTableSize:
